@@ -34,8 +34,8 @@ from vf.ref import c17_model as M
 ID = "C17"
 LEVEL = "exploration"
 BOUNDS = {
-    "quick": {"N": 3, "bfs_depth": 3, "bfs_prios": [8, 4, 0], "pairs": False},
-    "thorough": {"N": 4, "bfs_depth": 4, "bfs_prios": list(range(9)), "pairs": True},
+    "quick": {"N": 3, "bfs_depth": 3, "bfs_prios": [8, 4, 0], "pairs": False, "multi_len": 4, "multi_thresholds": [8, None, 4]},
+    "thorough": {"N": 4, "bfs_depth": 4, "bfs_prios": list(range(9)), "pairs": True, "multi_len": 6, "multi_thresholds": [*range(9), None]},
 }
 RULE = (
     "record alphabet = 7 levels x tags {none,[],[a],[a,b]} x 13 texts (empty, ascii, newline, CRLF, NUL, emoji, "
@@ -45,7 +45,10 @@ RULE = (
     "(txseq) ALL text-kind sequences of length 1..N over the 8 text kinds of the brief and of length 1..N-1 over all 13; remaining attributes assigned by a rotating schedule so that every "
     "attribute value occurs at every position; (pairs, thorough) all ordered pairs over level x text; (flevel) level "
     "sequences <=2 x file level. N=3 quick / 4 thorough. Each log: written once by the real handler, read as "
-    "{.zst as written, .gz, plain, stdin pipe, stdin file} x {with '<prio>' prefix, prefix stripped}; round trip, len, "
+    "{.zst as written, .gz, plain, stdin pipe, stdin file} x {with '<prio>' prefix, prefix stripped}, and as {plain, .zst, .gz} "
+    "x {every mixed pattern of prefixed/unprefixed lines (all 2^n-2 masks on lvseq logs, the alternating masks elsewhere), "
+    "final newline stripped}; (multi) hr with 2 and 3 FILE arguments over all ordered pairs of logs with 0..4 (quick) / "
+    "0..6 (thorough) records, both orders, every mode x -n value, oracle = single-file outputs concatenated; round trip, len, "
     "records(priority p, offset k, reverse) for all 9 p x k in -(n+1)..n+1 x both directions; hr {forward, reverse, "
     "--head -n, --tail -n} x n in {0,1,len-1,len,len+1,100} x 9 thresholds + default (lvseq logs; fewer thresholds on the other "
     "families / containers, see PROFILES). (bfs) for logs of n=0..N+1 records: "
@@ -135,7 +138,7 @@ def worker_init() -> None:
 JOIN_TIMEOUT = 20.0  # only ever waited for when gallia fails to stop its listener thread
 
 
-def write_log(path: Path, specs: list[M.RecSpec], file_level: str) -> list[tuple[str, str]]:
+def write_log(path: Path, specs: list[M.RecSpec], file_level: str, t0_us: int = 0) -> list[tuple[str, str]]:
     """log ``specs`` through the real handler path; returns writer-side failures as (signature part, message)."""
     gl = G["gl"]
     logger = G["logger"]
@@ -146,7 +149,7 @@ def write_log(path: Path, specs: list[M.RecSpec], file_level: str) -> list[tuple
     thread = getattr(lst, "_thread", None)
     try:
         for i, (level, tags_i, text_k, exc) in enumerate(specs):
-            G["clock"].us = M.ts_us(i)
+            G["clock"].us = M.ts_us(i, t0_us)
             tags = M.TAGS[tags_i]
             extra = None if tags is None else {"tags": list(tags)}
             getattr(logger, level.lower())(M.TEXTS[text_k], extra=extra, exc_info=G["exc"] if exc else None)
@@ -168,15 +171,6 @@ def write_log(path: Path, specs: list[M.RecSpec], file_level: str) -> list[tuple
         problems.append((f"handler-thread-died|{typ}", f"thread {name} was killed by {typ}: {msg} - that record and all later ones never reach the file"))
     G["thread_exc"].clear()
     return problems
-
-
-def strip_prefix(raw: bytes) -> bytes:
-    out = []
-    for line in raw.split(b"\n"):
-        if line.startswith(b"<") and b">" in line:
-            line = line[line.index(b">") + 1 :]
-        out.append(line)
-    return b"\n".join(out)
 
 
 # -- containers -----------------------------------------------------------------------
@@ -291,12 +285,14 @@ def short(x: Any, n: int = 60) -> str:
 class LogCase:
     """one written log + everything the oracle needs."""
 
-    def __init__(self, res: Result, item: Any, d: Path, specs: list[M.RecSpec], file_level: str = "TRACE") -> None:
+    def __init__(self, res: Result, item: Any, d: Path, specs: list[M.RecSpec], file_level: str = "TRACE", t0_us: int = 0) -> None:
         self.res = res
         self.item = item
         self.specs = specs
         self.file_level = file_level
-        self.ref = M.ref_log(specs, file_level)
+        self.t0_us = t0_us
+        self.dir = d
+        self.ref = M.ref_log(specs, file_level, t0_us)
         self.n = len(self.ref)
         self.prios = [r["prio"] for r in self.ref]
         self.key = M_digest((specs, file_level))
@@ -311,7 +307,7 @@ class LogCase:
         # failure shapes of records(p,k,rev) without history: on a fresh reader / on a reader whose len() was taken first
         self.base: dict[tuple[Any, ...], set[str | None]] = {}
         zpath = d / "as-written.json.zst"
-        for part, msg in write_log(zpath, specs, file_level):
+        for part, msg in write_log(zpath, specs, file_level, t0_us):
             texts = ",".join(sorted({s[2] for s in specs}))
             self.violate(f"C17|write|{part}", f"{msg} [texts logged: {texts}]", {"op": "write"})
         try:
@@ -321,15 +317,37 @@ class LogCase:
             self.violate("C17|write|zst-not-decodable", f"file written by the handler is not a zstd stream: {e}", {})
             return
         self.raw = raw
-        (d / "p").mkdir()
-        (d / "np").mkdir()
-        self.variants["prefix"] = Files(d / "p", "prefix", raw, zpath)
-        self.variants["noprefix"] = Files(d / "np", "noprefix", strip_prefix(raw), None)
-        for v, f in self.variants.items():
-            parts = f.data.split(b"\n")
-            self.lines[v] = [p + b"\n" for p in parts[:-1]] + ([parts[-1]] if parts[-1] else [])
-            self.offsets[v] = list(itertools.accumulate([0] + [len(x) for x in self.lines[v][:-1]])) if self.lines[v] else []
+        parts = raw.split(b"\n")
+        self.raw_lines = parts[:-1] + ([parts[-1]] if parts[-1] else [])  # physical lines as written, without "\n"
+        self.zpath = zpath
+        nl = len(self.raw_lines)
+        self.add_variant((1,) * nl, False)
+        self.add_variant((0,) * nl, False)
         self.ok = True
+
+    def add_variant(self, mask: tuple[int, ...], nonl: bool) -> str:
+        """derive a file variant from the lines the handler wrote: mask[i]=0 strips the '<prio>' prefix of line i;
+        nonl drops the final newline.  Returns its name."""
+        name = "prefix" if not mask and not nonl else M.variant_name(mask, nonl)
+        if not mask and not nonl and "prefix" in self.variants:
+            name = "noprefix"  # the empty log: both main variants are the empty file
+        lines = []
+        for keep, line in zip(mask, self.raw_lines, strict=True):
+            if not keep and line.startswith(b"<") and b">" in line:
+                line = line[line.index(b">") + 1 :]
+            lines.append(line + b"\n")
+        if nonl and lines:
+            lines[-1] = lines[-1][:-1]
+        if name == "prefix" and lines and not self.raw.endswith(b"\n"):
+            lines[-1] = lines[-1][:-1]  # the file exactly as the handler wrote it
+        data = b"".join(lines)
+        sub = self.dir / f"v{len(self.variants)}"
+        sub.mkdir()
+        as_written = self.zpath if name == "prefix" and data == self.raw else None
+        self.variants[name] = Files(sub, name, data, as_written)
+        self.lines[name] = lines
+        self.offsets[name] = list(itertools.accumulate([0] + [len(x) for x in lines[:-1]])) if lines else []
+        return name
 
     def violate(self, sig: str, msg: str, case: dict[str, Any]) -> None:
         self.res.violate(sig, msg, {"item": self.item, "sig": sig, "specs": [list(s) for s in self.specs], "case": case})
@@ -365,7 +383,7 @@ def check_roundtrip(lc: LogCase, variant: str, cont: str, reader: Any, baseline_
             lc.base_fail.add(clause)
             only = ""
         else:
-            only = "" if clause in lc.base_fail or not baseline_ok else f"|only-{variant}-{cont}"
+            only = "" if clause in lc.base_fail or not baseline_ok else f"|only-{M.variant_kind(variant)}-{cont}"
         lc.violate(f"C17|{clause}{only}", f"{msg} [{where}]", {**case, **(extra or {})})
 
     lc.ev(variant, cont, "len")
@@ -389,7 +407,7 @@ def check_roundtrip(lc: LogCase, variant: str, cont: str, reader: Any, baseline_
         return False
     for i, (ref, rec) in enumerate(zip(lc.ref, recs, strict=True)):
         obs = canon(rec)
-        spec = next(s for j, s in enumerate(lc.specs) if M.ts_us(j) == ref["ts_us"])
+        spec = next(s for j, s in enumerate(lc.specs) if M.ts_us(j, lc.t0_us) == ref["ts_us"])
         for clause in M.record_mismatches(ref, obs, G["trace"] if ref["exc"] else None):
             detail = {
                 "text": f"text={spec[2]}|exc={int(spec[3])}",
@@ -411,7 +429,7 @@ def check_roundtrip(lc: LogCase, variant: str, cont: str, reader: Any, baseline_
         idx = [lc.index_of(r) for r in recs]
         if idx != list(range(lc.n)):
             lc.violate(
-                f"C17|roundtrip|differs-from-plain|only-{variant}-{cont}",
+                f"C17|roundtrip|differs-from-plain|only-{M.variant_kind(variant)}-{cont}",
                 f"[{where}] yields other records than the plain prefixed file: indices {idx}",
                 case,
             )
@@ -821,9 +839,12 @@ PROFILES: dict[str, dict[str, Any]] = {
     #   sweep: thresholds of the records(p, k, reverse) sweep (all k, both directions)
     #   hr:    (thresholds passed with -p [None = default], -n values: "all" = {0,1,len-1,len,len+1,100}, "short" = {1,len+1},
     #           "forward-only" = plain forward mode only)
+    #   extra: the additional file variants (mixed prefixed/unprefixed lines: "all" 2^n-2 masks or the 2 alternating ones;
+    #          final newline stripped) with their containers / sweep / hr configuration
     "full": {
         "sweep": {"*": M.ALL_PRIOS},
         "hr": {"plain": (ALL_THRESHOLDS, "all"), "*": ([None], "short")},
+        "extra": {"masks": "all", "containers": ["plain", "zst", "gz"], "sweep": {"plain": [8, 4], "*": [8]}, "hr": {"plain": ([8], "short"), "*": ([], "forward-only")}},
         "two_files": True,
     },
     # quick tier (and length-4 sequences of the thorough tier): as "full", but hr on the prefix-stripped plain file
@@ -831,16 +852,19 @@ PROFILES: dict[str, dict[str, Any]] = {
     "fullq": {
         "sweep": {"*": M.ALL_PRIOS},
         "hr": {"plain": (ALL_THRESHOLDS, "all"), "noprefix/plain": ([8, None, 4, 0], "all"), "*": ([None], "short")},
+        "extra": {"masks": "all", "containers": ["plain", "zst", "gz"], "sweep": {"plain": [8, 4], "*": [8]}, "hr": {"plain": ([8], "short"), "*": ([], "forward-only")}},
         "two_files": True,
     },
     "text": {
         "sweep": {"plain": [8, 5], "*": [8]},
         "hr": {"plain": ([8], "all"), "*": ([8], "forward-only")},
+        "extra": {"masks": "alt", "containers": ["plain", "gz"], "sweep": {"*": [8]}, "hr": {"plain": ([8], "forward-only"), "*": ([], "forward-only")}},
         "two_files": False,
     },
     "alpha": {
         "sweep": {"plain": M.ALL_PRIOS, "*": [8]},
         "hr": {"plain": ([8, None], "short"), "*": ([8], "forward-only")},
+        "extra": {"masks": "alt", "containers": ["plain", "gz"], "sweep": {"*": [8]}, "hr": {"plain": ([8], "forward-only"), "*": ([], "forward-only")}},
         "two_files": False,
     },
 }
@@ -850,6 +874,43 @@ def _pick(d: dict[str, Any], cont: str, variant: str = "") -> Any:
     if f"{variant}/{cont}" in d:
         return d[f"{variant}/{cont}"]
     return d.get(cont, d["*"])
+
+
+def explore_variant(lc: LogCase, variant: str, conts: list[str], sweep: dict[str, Any], hr: dict[str, Any], baseline_ok: bool) -> bool:
+    """open / round trip / records() sweep / hr for one file variant in the given containers; returns baseline_ok
+    (set by the plain prefixed file, which is always explored first)."""
+    files = lc.variants[variant]
+    kind = M.variant_kind(variant)
+    for cont in conts:
+        is_base = (variant, cont) == ("prefix", "plain")
+        lc.ev(variant, cont, "open")
+        try:
+            reader = files.open_reader(cont)
+        except Exception as e:  # gallia call
+            empty = "empty-log" if lc.n == 0 else f"n={lc.n}"
+            only = "" if lc.n == 0 or not baseline_ok else f"|only-{kind}-{cont}"
+            lc.violate(
+                f"C17|open|{empty}|raises-{type(e).__name__}{only}",
+                f"PenlogReader(<{variant}/{cont}>) on a log of {lc.n} records raised {e!r}",
+                {"variant": variant, "container": cont, "op": "open"},
+            )
+            reader = None
+        if reader is not None:
+            try:
+                ok = check_roundtrip(lc, variant, cont, reader, baseline_ok)
+                if is_base:
+                    baseline_ok = ok
+                if baseline_ok:
+                    sweep_records(lc, variant, cont, reader, _pick(sweep, cont))
+            finally:
+                reader.close()
+        # hr needs the renderings of the verified baseline read to decode its output; for the empty log
+        # nothing needs decoding
+        if baseline_ok or lc.n == 0:
+            if is_base and baseline_ok:
+                check_render(lc)
+            check_hr(lc, variant, cont, *_pick(hr, cont, variant))
+    return baseline_ok
 
 
 def check_log(res: Result, item: Any, d: Path, specs: list[M.RecSpec], profile: str, file_level: str = "TRACE", bfs_cfg: tuple[int, list[int]] | None = None) -> None:
@@ -862,42 +923,108 @@ def check_log(res: Result, item: Any, d: Path, specs: list[M.RecSpec], profile: 
     res.notes["records_per_log"][str(lc.n)] = res.notes["records_per_log"].get(str(lc.n), 0) + 1
     baseline_ok = False
     for variant in ("prefix", "noprefix"):
-        files = lc.variants[variant]
-        for cont in CONTAINERS:
-            lc.ev(variant, cont, "open")
-            try:
-                reader = files.open_reader(cont)
-            except Exception as e:  # gallia call
-                empty = "empty-log" if lc.n == 0 else f"n={lc.n}"
-                only = "" if lc.n == 0 or not baseline_ok else f"|only-{variant}-{cont}"
-                lc.violate(
-                    f"C17|open|{empty}|raises-{type(e).__name__}{only}",
-                    f"PenlogReader(<{variant}/{cont}>) on a log of {lc.n} records raised {e!r}",
-                    {"variant": variant, "container": cont, "op": "open"},
-                )
-                reader = None
-            if reader is not None:
-                try:
-                    ok = check_roundtrip(lc, variant, cont, reader, baseline_ok)
-                    if (variant, cont) == ("prefix", "plain"):
-                        baseline_ok = ok
-                    if baseline_ok:
-                        sweep_records(lc, variant, cont, reader, _pick(prof["sweep"], cont))
-                finally:
-                    reader.close()
-            # hr needs the renderings of the verified baseline read to decode its output; for the empty log
-            # nothing needs decoding
-            if baseline_ok or lc.n == 0:
-                if (variant, cont) == ("prefix", "plain") and baseline_ok:
-                    check_render(lc)
-                check_hr(lc, variant, cont, *_pick(prof["hr"], cont, variant))
+        baseline_ok = explore_variant(lc, variant, CONTAINERS, prof["sweep"], prof["hr"], baseline_ok)
+    extra = prof["extra"]
+    names = []
+    if baseline_ok:
+        # mixed prefixed/unprefixed lines, missing final newline (derived from the lines actually written)
+        for mask, nonl in M.extra_variants(len(lc.raw_lines), extra["masks"]):
+            name = lc.add_variant(mask, nonl)
+            names.append(name)
+            res.count("extra_variants")
+            explore_variant(lc, name, extra["containers"], extra["sweep"], extra["hr"], baseline_ok)
     if prof["two_files"] and (baseline_ok or lc.n == 0):
         check_hr_two_files(lc)
     if bfs_cfg is not None and baseline_ok:
-        for variant in ("prefix", "noprefix"):
+        alt = [v for v in names if v.startswith("mixed-") and not v.endswith("-nonl")][:1]
+        for variant in ["prefix", "noprefix", *alt, *[v for v in names if v == "prefix-nonl"]]:
             bfs(lc, variant, *bfs_cfg)
     if lc.n and not baseline_ok:
         res.count("logs_without_baseline")
+
+
+# -- hr with several FILE arguments ------------------------------------------------------------
+
+T0_STEP_US = 400_000_000  # clocks of the logs of one multi-file case are 400 s apart (records of one log: 1001 s)
+
+
+def multi_specs(n: int, phase: int) -> list[M.RecSpec]:
+    order = ["NOTICE", "DEBUG", "ERROR", "INFO", "TRACE", "WARNING", "CRITICAL"]
+    texts = ["ascii", "nl", "emoji", "prio", "ws", "surrmid", "empty"]
+    return [(order[(i + phase) % 7], (i + phase) % 4, texts[(i + 2 * phase) % len(texts)], (i + phase) % 4 == 3) for i in range(n)]
+
+
+def check_hr_multi(res: Result, item: Any, d: Path, lengths: list[int], thresholds: list[int | None]) -> None:
+    """hr FILE FILE [FILE]: every mode x -n value x threshold; oracle = the single-file outputs one after the other."""
+    lcs: list[LogCase] = []
+    for j, n in enumerate(lengths):
+        sub = d / f"log{j}"
+        sub.mkdir()
+        res.count("logs")
+        lc = LogCase(res, item, sub, multi_specs(n, 3 * j + 1), "TRACE", t0_us=j * T0_STEP_US)
+        if not lc.ok:
+            return
+        # verified baseline read of each log (gives the renderings the output is decoded with)
+        if not explore_variant(lc, "prefix", ["plain"], {"*": []}, {"*": ([], "forward-only")}, False) and lc.n:
+            res.count("logs_without_baseline")
+            return
+        lcs.append(lc)
+    lc0 = lcs[0]
+    renders = [(j, i, r) for j, lc in enumerate(lcs) for i, r in enumerate(lc.render)]
+    if len({r for _, _, r in renders}) != len(renders):
+        raise Broken("harness: renderings of the logs of a multi-file case are not pairwise distinct")
+    # argument shapes: (log index, variant, container) per FILE argument
+    a, b = 0, 1
+    shapes = [
+        [(a, "prefix", "zst"), (b, "noprefix", "gz")],
+        [(b, "prefix", "plain"), (a, "prefix", "zst")],
+        [(a, "noprefix", "plain"), (b, "prefix", "zst"), (a, "prefix", "gz")],
+    ]
+    cases = [("forward", None), ("reverse", None)] + [(m, ln) for m in ("head", "tail") for ln in M.multi_line_counts(lengths)]
+    for shape in shapes:
+        paths = [str(lcs[j].variants[v].paths[c]) for j, v, c in shape]
+        prios_per_file = [lcs[j].prios for j, _, _ in shape]
+        tag = "+".join(f"log{j}:{v}/{c}" for j, v, c in shape)
+        for mode, ln in cases:
+            for p in thresholds:
+                argv: list[str] = [] if p is None else ["-p", M.PRIORITY_NAMES[p]]
+                if mode == "reverse":
+                    argv.append("--reverse")
+                elif ln is not None:
+                    argv += [f"--{mode}", "-n", str(ln)]
+                lc0.ev("hr-multi", tag, mode, ln, p)
+                code, text, crash = run_hr(lc0.variants["prefix"], "plain", [*argv, *paths])
+                # (log, record) pairs: a log may be named by more than one argument
+                admitted = [[(shape[q][0], i) for q, i in adm] for adm in M.expect_hr_multi(prios_per_file, 6 if p is None else p, mode, ln or 0)]
+                obs: Any
+                if crash is not None:
+                    shape_s, obs = f"crash-{crash}", code
+                elif code not in (0, None):
+                    shape_s, obs = f"exit={code}", code
+                else:
+                    obs = []
+                    pos = 0
+                    while pos < len(text) and obs is not None:
+                        for j, i, r in renders:
+                            if text.startswith(r, pos):
+                                obs.append((j, i))
+                                pos += len(r)
+                                break
+                        else:
+                            obs = None
+                    if obs is None:
+                        shape_s, obs = "undecodable-output", short(text, 120)
+                    elif obs in admitted:
+                        continue
+                    else:
+                        shape_s = "differs-from-the-single-file-outputs"
+                lens = [lcs[j].n for j, _, _ in shape]
+                lc0.violate(
+                    f"C17|hr|multi-file|{mode}|{shape_s}",
+                    f"hr {' '.join(argv)} <{tag}> on logs of {lens} records with severities {prios_per_file}: expected "
+                    f"(log, record) {' or '.join(map(str, admitted))}, got {obs}",
+                    {"hr": [*argv, *paths], "lengths": lengths},
+                )
 
 
 # -- items -----------------------------------------------------------------------------------
@@ -935,6 +1062,9 @@ def items(tier: str, seed: int) -> list[tuple[Any, ...]]:
                 out.append(("alpha", level, tags_i, exc))
     for n in range(0, N + 2):
         out.append(("bfs", n, b["bfs_depth"], b["bfs_prios"]))
+    for la in range(0, b["multi_len"] + 1):
+        for lb in range(0, b["multi_len"] + 1):
+            out.append(("multi", [la, lb], b["multi_thresholds"]))
     for fl in ("DEBUG", "INFO", "WARNING", "CRITICAL"):
         for n in range(0, 3):
             for lv in itertools.product(M.LEVEL_NAMES, repeat=n):
@@ -990,6 +1120,9 @@ def run_item(item: tuple[Any, ...]) -> Result:
         elif fam == "flevel":
             _, levels, fl = item
             check_log(res, item, d, lv_specs(levels, 5 + len(levels)), "text", file_level=fl)
+        elif fam == "multi":
+            _, lengths, thresholds = item
+            check_hr_multi(res, item, d, lengths, thresholds)
         elif fam == "bfs":
             _, n, depth, prios = item
             check_log(res, item, d, bfs_specs(n), "text", bfs_cfg=(depth, prios))
@@ -1028,7 +1161,7 @@ def finish(merged: Result, tier: str) -> dict[str, Any]:
     if not c.get("transitions") and not merged.violations:
         raise Broken("vacuous: no reader operation sequence explored")
     fams = set(merged.notes.get("items_per_family", {}))
-    need = {"lvseq", "txseq", "alpha", "bfs", "flevel"} | ({"pair"} if BOUNDS[tier]["pairs"] else set())
+    need = {"lvseq", "txseq", "alpha", "bfs", "flevel", "multi"} | ({"pair"} if BOUNDS[tier]["pairs"] else set())
     if fams != need:
         raise Broken(f"families run {sorted(fams)} != {sorted(need)}")
     b = BOUNDS[tier]
@@ -1040,6 +1173,7 @@ def finish(merged: Result, tier: str) -> dict[str, Any]:
             "bfs_log_lengths": list(range(0, b["N"] + 2)),
             "bfs_priorities": b["bfs_prios"],
             "containers": CONTAINERS,
-            "variants": ["prefix", "noprefix"],
+            "variants": ["prefix", "noprefix", "mixed-<every 0/1 mask> (lvseq, bfs) / alternating masks (other families)", "<prefix|noprefix|alternating>-nonl"],
+            "multi_file_log_lengths": list(range(0, b["multi_len"] + 1)),
         }
     }
